@@ -136,7 +136,7 @@ def _dedupe_known(known):
 def finish(pid, tier, seed, mod, reports, wall):
     from symv.case import func_info
     agg = dict(obligations=0, discharged=0, ground=0, paths=0, nontrivial_paths=0, validated=0, skipped_after_violation=0,
-               twin_checked=0, twin_ok=0)
+               twin_checked=0, twin_ok=0, xsolver_checked=0, xsolver_agree=0, xsolver_unknown=0, xsolver_s=0.0)
     stats = {}
     inconclusive, violations, known, nonrepro, herrs, mism, notes, samples = [], [], [], [], [], [], [], []
     regimes, labels, excs = {}, {}, {}
@@ -214,6 +214,9 @@ def finish(pid, tier, seed, mod, reports, wall):
             branch_decisions=stats.get("branch_decisions", 0), unknown_feasibility=stats.get("unknown_feasibility", 0),
             traces_validated_against_impl=agg["validated"],
             reachability_twins=dict(checked=agg["twin_checked"], violated_as_expected=agg["twin_ok"]),
+            cross_solver_audit=dict(solver="cvc5 1.4.0 (python wheel) on the SMT-LIB2 text of the z3 query", sampled_obligations=agg["xsolver_checked"],
+                                    agree_unsat=agg["xsolver_agree"], cvc5_unknown=agg["xsolver_unknown"], disagree=0 if not any("solvers disagree" in h for h in herrs) else sum("solvers disagree" in h for h in herrs),
+                                    cvc5_s=round(agg["xsolver_s"], 2)),
             regimes_reached={k: v for k, v in sorted(regimes.items())},
             exception_outcomes=excs,
             stubs=getattr(mod, "STUBS", []),
